@@ -3,7 +3,7 @@ CFG = {
     "audit": "Norad/Audit/C09.lean",
     "rule": ("Font::save into a sandbox with sentinel files beside and above the target, the target absent / empty / another larger UFO / nested junk / a plain file / the font's "
              "own source: all 32 combinations of optional parts (lib, font info, extra layers, layer info, groups, kerning, features, data, images, guidelines) x API-built / loaded, "
-             "random fonts with edits over every pre-state, and crafted relative paths (store keys ../x, ../../x, ../../../x, ./a, q/../b, image key .., contents.plist values "
+             "240 random fonts with edit histories (store inserts/removes/gets, glyphs, layers, lib) over every pre-state, and crafted relative paths (store keys ../x, ../../x, ../../../x, ./a, q/../b, image key .., contents.plist values "
              "../../x.glif and sub/../a.glif, a nested layer directory in layercontents.plist). Listing and content hashes of the whole sandbox before and after; every save repeated "
              "into a fresh path and compared byte for byte. non-trivial = target pre-populated or crafted path; distinct by recipe"),
     "exhaustive": {"quick": False, "thorough": False},
@@ -23,8 +23,9 @@ MANIFEST = {
              "independent of the starting file system), emptiness gates of every optional part at plan level (optional_part/fontinfo/images_planned_iff_nonempty), "
              "save_frame_counterexample_store_key and _contents_value (kernel-evaluated escapes, recorded findings), guard_separates, api_built_fonts_safe. Oracle on the implementation's "
              "own output for every case: frame (nothing outside the target changes), exact-files (paths under the target = expectedPaths of the font: no remains, optional files iff "
-             "non-empty), fresh-identical (byte-for-byte equal to a save into a fresh path); correspondence of result class and whole-sandbox post-state with the model, `..` paths included."),
+             "non-empty), fresh-identical (byte-for-byte equal to a save into a fresh path); correspondence of result class and whole-sandbox post-state with the model, `..` paths included."
+             " Second phase: save_frame (guard safePaths, any outcome) and save_tree_depends_only_on_font at file-system level (equal sub-trees from any two well-formed pre-states) are proved; exactly_the_determined_files in expectedPaths form stays OPEN (oracle only)."),
     "design_ref": "5 / C09, 4",
-    "note": "trusted: Lean kernel + 3 standard axioms; harness/driver glue; std::fs vs abstract FS. save_frame_partial and exactly_the_determined_files are stated (OPEN) and covered by the oracle only",
+    "note": "trusted: Lean kernel + 3 standard axioms; harness/driver glue; std::fs vs abstract FS. exactly_the_determined_files (expectedPaths form) is OPEN and covered by the oracle only",
     "technique": "Lean 4 model of save as a font-determined effect plan + whole-sandbox differential snapshots and fresh-path byte comparison",
 }
